@@ -14,8 +14,9 @@ PROP = {
                   "(min, max, prefix_only); the first-byte width table (regenerated) is proved to give the UTF-8 width. Snippets: collapse_overlapped_ranges is proved sorted, "
                   "disjoint, coverage-preserving and end-point-preserving for all inputs; SnippetGenerator::snippet is proved panic-free for every analyzer without the compound "
                   "splitter, the fragment is a slice on boundaries, every raw highlight is a token whose lower-cased text is a query term, fragment length <= max_num_chars unless "
-                  "the fragment is one over-long token (F9, witness proved); for non-overlapping analyzers raw and collapsed highlights are sorted, disjoint, inside the fragment "
-                  "and on its boundaries and to_html does not panic (overlapping analyzers: F10 raw overlap, F21 highlight outside the fragment and to_html panic, witnesses proved); "
+                  "the fragment is one over-long token (F9, witness proved); for every analyzer the collapsed highlights are sorted, disjoint, inside the fragment and on its boundaries and to_html does not panic "
+                  "(model follows the repaired try_add_token, shape pinned: F21 fixed, regression witness kept); the raw highlighted() ranges are proved sorted and disjoint for "
+                  "non-overlapping analyzers (overlapping ones: F10, witness proved); "
                   "to_html is proved to be the fragment cut into escaped pieces with tags only around highlights, no markup character survives escaping, and reading the HTML back "
                   "returns the fragment. Partial: the ring-buffer n-gram iterator is tied to the specification by differential runs only (not yet by proof); the split-compound "
                   "filter is proved offset-preserving but its panic-freedom needs a UTF-8 dictionary (F23, API misuse). "
